@@ -332,6 +332,23 @@ def op_gate1(s, a):
     require_state(s, ref, "gate1")
 
 
+def op_normalize_site(s, a):
+    """tensor-level rescaling of one site (Tensor.normalize_): the state is divided by that tensor's norm; it takes no record,
+    so the harness drops the record exactly as a user must - but a tensor that stays *flagged* isometric must still be one
+    (the canonization shortcut trusts the flag)"""
+    (i,) = a
+    L = s.psi.L
+    i = i % L
+    d0 = dense(s.psi)
+    nrm = float(np.linalg.norm(np.asarray(s.psi[i].data)))
+    if nrm < 1e-12:
+        raise Reject("zero tensor")
+    s.psi[i].normalize_()
+    s.info.pop("cur_orthog", None)
+    changed(s)
+    require_state(s, d0 / nrm, "normalize_site")
+
+
 def op_gate_split(s, a):
     i, seed, rev = a
     L = s.psi.L
@@ -684,6 +701,7 @@ OPS = {
     "compress": (st.tuples(I, I), op_compress),
     "compress_site": (st.tuples(I, st.integers(0, 5).map(lambda x: x == 0)), op_compress_site),
     "gate1": (st.tuples(I, SEED, B), op_gate1),
+    "normalize_site": (st.tuples(I), op_normalize_site),
     "gate_split": (st.tuples(I, SEED, B), op_gate_split),
     "auto_swap": (st.tuples(I, I, SEED, B), op_auto_swap),
     "nonlocal": (st.tuples(st.lists(I, min_size=1, max_size=3), SEED, I, B), op_nonlocal),
